@@ -155,6 +155,82 @@ type FactInfo struct {
 	in     map[*ssa.BasicBlock]factSet
 	expand map[Fact]factSet // memo for implied facts
 	busy   map[Fact]bool
+	// canonV: pure computations that are structurally identical (len(x) > 0 written twice) share one
+	// representative, so a fact established through one of them is known for the others
+	canonV map[ssa.Value]ssa.Value
+	// dupRep: representatives that stand for more than one computation
+	dupRep map[ssa.Value]bool
+}
+
+// canon returns the representative of v's class of structurally identical pure values.
+func (fi *FactInfo) canon(v ssa.Value) ssa.Value {
+	if fi == nil || fi.canonV == nil {
+		return v
+	}
+	if r, ok := fi.canonV[v]; ok {
+		return r
+	}
+	return v
+}
+
+func (fi *FactInfo) buildCanon() {
+	fi.canonV = map[ssa.Value]ssa.Value{}
+	fi.dupRep = map[ssa.Value]bool{}
+	byKey := map[string]ssa.Value{}
+	id := func(v ssa.Value) string {
+		if c, ok := v.(*ssa.Const); ok {
+			if c.Value == nil {
+				return "const:nil:" + c.Type().String()
+			}
+			return "const:" + c.Value.ExactString() + ":" + c.Type().String()
+		}
+		if r, ok := fi.canonV[v]; ok {
+			v = r
+		}
+		return fmt.Sprintf("%p", v)
+	}
+	// dominator-tree preorder would be ideal; block order is enough because a representative is only
+	// used to look facts up, never to evaluate
+	for _, b := range fi.fn.Blocks {
+		for _, in := range b.Instrs {
+			var key string
+			switch x := in.(type) {
+			case *ssa.BinOp:
+				key = "bin:" + x.Op.String() + ":" + id(x.X) + ":" + id(x.Y)
+			case *ssa.UnOp:
+				if x.Op == token.MUL || x.Op == token.ARROW {
+					continue
+				}
+				key = "un:" + x.Op.String() + ":" + id(x.X)
+			case *ssa.Call:
+				bi, ok := x.Call.Value.(*ssa.Builtin)
+				if !ok || (bi.Name() != "len" && bi.Name() != "cap") || len(x.Call.Args) != 1 {
+					continue
+				}
+				// len of a slice/string/map value: the same SSA value has the same length (values are
+				// immutable; len of a map or channel may change and is left alone)
+				switch x.Call.Args[0].Type().Underlying().(type) {
+				case *types.Slice, *types.Basic, *types.Array:
+				default:
+					continue
+				}
+				key = "call:" + bi.Name() + ":" + id(x.Call.Args[0])
+			case *ssa.Convert:
+				key = "conv:" + x.Type().String() + ":" + id(x.X)
+			case *ssa.ChangeType:
+				key = "ct:" + x.Type().String() + ":" + id(x.X)
+			default:
+				continue
+			}
+			v := in.(ssa.Value)
+			if r, ok := byKey[key]; ok {
+				fi.canonV[v] = r
+				fi.dupRep[r] = true
+			} else {
+				byKey[key] = v
+			}
+		}
+	}
 }
 
 // edgeFacts returns the facts established by taking the edge from -> to.
@@ -189,6 +265,7 @@ var pathEdge struct {
 
 // implied expands "v is pol" into atomic facts.
 func (fi *FactInfo) implied(v ssa.Value, pol bool) factSet {
+	v = fi.canon(v)
 	key := Fact{"true", v, pol}
 	if r, ok := fi.expand[key]; ok {
 		return r
@@ -216,7 +293,7 @@ func (fi *FactInfo) implied(v ssa.Value, pol bool) factSet {
 			}
 			if other != nil {
 				nonnil := (x.Op == token.NEQ) == pol
-				out[Fact{"nonnil", other, nonnil}] = true
+				out[Fact{"nonnil", fi.canon(other), nonnil}] = true
 			}
 			// comparison with a bool constant
 			if b, ok := boolConst(x.Y); ok {
@@ -278,6 +355,7 @@ func ComputeFacts(fn *ssa.Function) *FactInfo {
 	if len(fn.Blocks) == 0 {
 		return fi
 	}
+	fi.buildCanon()
 	// iterate to fixpoint; nil in-set = TOP (not yet computed)
 	fi.in[fn.Blocks[0]] = factSet{}
 	changed := true
@@ -330,7 +408,10 @@ func (fi *FactInfo) At(b *ssa.BasicBlock) factSet {
 	return factSet{}
 }
 
-func (fi *FactInfo) Holds(b *ssa.BasicBlock, f Fact) bool { return fi.At(b)[f] }
+func (fi *FactInfo) Holds(b *ssa.BasicBlock, f Fact) bool {
+	f.V = fi.canon(f.V)
+	return fi.At(b)[f]
+}
 
 // HoldsWhere reports whether some fact at b satisfies pred.
 func (fi *FactInfo) HoldsWhere(b *ssa.BasicBlock, pred func(Fact) bool) bool {
